@@ -1083,6 +1083,7 @@ pub fn run_history(h: &J, events: &mut Vec<J>, opts: &RunOpts, sink: &mut Sink) 
         let vols: Vec<J> = img.geos.iter().map(|g| reader::full_projection(&st, g, &vals)).collect();
         events.push(json!({"ev": "Reset", "hid": h["id"], "src": h.get("src").cloned().unwrap_or(json!("script")),
             "lim": lim, "upb": bounds.len(), "nvol": img.geos.len(), "vols": vols,
+            "chk": h.get("chk").cloned().unwrap_or(json!("full")),
             "fault": h.get("fail_at").is_some() || h.get("fail_from").is_some() || h.get("fail_set").is_some()}));
     }
     macro_rules! go {
